@@ -264,6 +264,59 @@ def build(src):
     return eval(src, dict(NS))
 
 
+# ------------------------------------------------------------------ classification (F43)
+class _StrColor(str, __import__("enum").Enum):
+    A = "a"
+
+
+NS["_StrColor"] = _StrColor
+_BUILTIN_REPRS = ((bool, bool.__repr__), (int, int.__repr__), (float, float.__repr__), (str, str.__repr__),
+                  (bytes, bytes.__repr__))
+
+
+def _own_repr(x):
+    """x is an instance of a SUBCLASS of int/float/str/bytes that prints differently from the built-in
+    (an enum member: <Color.RED: 1>)"""
+    for base, base_repr in _BUILTIN_REPRS:
+        if isinstance(x, base):
+            return type(x) is not base and type(x).__repr__ is not base_repr
+    return False
+
+
+def own_repr_parameter(s, depth=0):
+    """a parameter or dict key anywhere in the schema is such an instance"""
+    if depth > 40 or not isinstance(s, Schema):
+        return False
+    for name in s.props:
+        x = s.props.get(name)
+        if _own_repr(x):
+            return True
+        if isinstance(x, Schema) and own_repr_parameter(x, depth + 1):
+            return True
+        if isinstance(x, (list, tuple)) and any(own_repr_parameter(e, depth + 1) for e in x):
+            return True
+        if isinstance(x, dict):
+            for k, p in x.items():
+                if _own_repr(k) or (isinstance(k, tuple) and any(_own_repr(c) for c in k)):
+                    return True
+                if isinstance(p, tuple) and own_repr_parameter(p[0], depth + 1):
+                    return True
+    return False
+
+
+# parameters that are instances of subclasses of the built-in types: accepted by every declaration that accepts
+# the built-in (isinstance), so the schemas are "declarable"; the first five print like the built-in value
+SUBCLASS_PARAM_SOURCES = [
+    "schema.int(_IntSub(7))", "schema.str(_StrSub('ab'))", "schema.float(_FloatSub(1.5))", "schema.str.len(_IntSub(2))",
+    "schema.list([schema.int.min(_IntSub(1))]).len(_IntSub(1))",
+    "schema.int(_IntColor.RED)", "schema.int.min(_IntColor.RED)", "schema.int.max(_IntColor.RED)",
+    "schema.str(_StrColor.A)", "schema.str.contains(_StrColor.A)", "schema.str.len(_IntColor.RED)",
+    "schema.list.len(_IntColor.RED, ...)", "schema.float.precision(_IntColor.RED)",
+    "schema.list([schema.int(_IntColor.RED), ...])", "schema.dict({'k': schema.str(_StrColor.A)})",
+    "schema.dict({_IntColor.RED: schema.int})", "schema.any(schema.int(_IntColor.RED), schema.none)",
+]
+
+
 # ------------------------------------------------------------------ the check
 def oracle(ctx, src, s, stats):
     """direct oracle on the implementation; returns False when the case is settled"""
@@ -306,6 +359,9 @@ def oracle(ctx, src, s, stats):
             # a NaN parameter rebuilds fine but is unequal to itself (F10)
             if nonfinite_float_literal(s, keys_only=True) and ctx.known_finding("F15", src):
                 stats["f15"] += 1
+                return None
+            if own_repr_parameter(s) and ctx.known_finding("F43", src):
+                stats["f43"] = stats.get("f43", 0) + 1
                 return None
             if nonfinite_float_literal(s, nan_only=True) and "!= S" in problem and ctx.known_finding("F10", src):
                 stats["f10"] = stats.get("f10", 0) + 1
@@ -366,7 +422,7 @@ def run(ctx):
     unmodelled = 0
     seen = set()
     sizes = []
-    for src in gen_sources(ctx, n, depth):
+    for src in SUBCLASS_PARAM_SOURCES + list(gen_sources(ctx, n, depth)):
         try:
             s = build(src)
         except DeclarationError:
